@@ -242,7 +242,7 @@ class RequestHarness(Harness):
         for f in frames:
             d = decode_request(f)
             want = self._intended(a)
-            if d is None or d["op"] != want:
+            if d is None or d["op"] != want or (k[:3] in ("rtu", "tcp") and ("tx" in d) != k.startswith("tcp")):
                 viol = f"{k}: frame does not decode to the intended operation"
                 break
             if k.startswith("tcp"):
